@@ -111,7 +111,29 @@ fn tree_text(e: &E) -> String {
     gen::render(e, Ws::Pretty, Parens::Redundant, None).text
 }
 
+/// literal leaves in the form the syntax-tree normaliser prints them (1e5 -> 100000.0, 0x1f -> 31, 0x10u -> 16u)
+fn canon_literals(e: &E) -> E {
+    e.map_tree(&|x| match x {
+        E::Raw(t) => {
+            let lower = t.to_ascii_lowercase();
+            if let Some(h) = lower.strip_prefix("0x") {
+                let (digits, u) = match h.strip_suffix('u') {
+                    Some(d) => (d, "u"),
+                    None => (h, ""),
+                };
+                return u64::from_str_radix(digits, 16).ok().map(|v| E::Raw(format!("{}{}", v, u)));
+            }
+            if lower.contains('e') && !lower.contains('"') && !lower.contains('\'') && lower != "true" && lower != "false" {
+                return t.parse::<f64>().ok().map(|f| E::Raw(format!("{:?}", f)));
+            }
+            None
+        }
+        _ => None,
+    })
+}
+
 fn check_shape(rep: &mut Rep, sub: &str, src: &str, want: &E) -> bool {
+    let want = &canon_literals(want);
     rep.eval();
     match parse_norm(src) {
         Ok(got) => {
@@ -396,7 +418,10 @@ fn random_tree(rng: &mut Rng, depth: u32) -> E {
         // whatever it does must respect the grouping the grammar gives the text
         if rng.chance(1, 3) {
             // (E::Raw with the text the syntax tree normaliser produces for literals)
-            return E::Raw(match rng.below(6) {
+            return E::Raw(match rng.below(8) {
+                // exponent spellings: the sign that may follow `e` must not swallow a following operator
+                6 => rng.pick(&["1e5", "2.5e3", "1e-3", "25e+1", "1E2", "0.5e1", "3e0"]).to_string(),
+                7 => rng.pick(&["0x1f", "0XA", "7u", "0x10u"]).to_string(),
                 0..=2 => format!("{}", rng.range(0, 9)),
                 3 => format!("{}u", rng.below(5)),
                 4 => format!("{:?}", rng.range(0, 8) as f64 / 2.0),
